@@ -35,6 +35,8 @@ def src(v):
     if v is Nil:
         return "Nil"
     t = type(v)
+    if t is int and v.bit_length() > 14000:
+        return hex(v)            # decimal conversion of such an int raises ValueError
     if t is int or t is str or t is bytes:
         return repr(v)
     if t is float:
